@@ -354,7 +354,7 @@ class PilotManager(rpu.ClientComponent):
 
             # we don't care about pilots we don't know
             if pid not in self._pilots:
-                return   # this is not an error
+                return True  # this is not an error
 
             # only update on state changes
             current = self._pilots[pid].state
@@ -363,7 +363,7 @@ class PilotManager(rpu.ClientComponent):
             # always update the pilot instance, even if state didn't change
             if current == target:
                 self._pilots[pid]._update(pilot_dict)
-                return
+                return True
 
             target, passed = rps._pilot_state_progress(pid, current, target)
           # self._log.debug('%s current: %s', pid, current)
@@ -388,6 +388,8 @@ class PilotManager(rpu.ClientComponent):
                     self._log.info('pilot %s is %s: %s [%s]', pid, s,
                                     pilot_dict.get('lm_info'),
                                     pilot_dict.get('lm_detail'))
+
+        return True
 
 
     # --------------------------------------------------------------------------
